@@ -290,11 +290,44 @@ def shards(tier):
     out = [{"kind": "hyp", "scheme": s, "i": 0} for s in S.SCHEMES]
     if tier == "thorough":
         out += [{"kind": "hyp", "scheme": s, "i": 1} for s in S.SCHEMES]
+    out += [{"kind": "long_run", "scheme": s} for s in ("CJJ14.PiBas", "CJJ14.PiPack")]
     return out
+
+
+def long_run(scheme, seed, tier, res):
+    """one process, one key, one database, MANY setups: a stored block of any generation never comes back in a later one (a pooled
+    or periodic source of IVs repeats only after tens of thousands of encryptions)"""
+    import hashlib
+    loader = S.load(scheme)
+    cfg = S.default_config(scheme)
+    cfg["param_identifier_size"] = 8
+    if "param_B" in cfg:
+        cfg["param_B"] = 1      # one encryption per posting
+    per, gens = (625, 130 if tier == "quick" else 400)
+    db = {b"kw%d" % k: [hashlib.sha256(b"%d/%d" % (k, i)).digest()[:8] for i in range(125)] for k in range(per // 125)}
+    seen = {}
+    with entropy(seed):
+        sch = loader.SSEScheme(cfg)
+        key = sch.KeyGen()
+        for g in range(gens):
+            blocks = set(blocks_of(cipher_values(scheme, S.edb_payload(sch.EDBSetup(key, db).serialize()))))
+            res.count([scheme, "long_run", g], g > 0, ["scheme:" + scheme, "long_run_generation"], sample={"scheme": scheme, "long_run": "generation %d of %d postings" % (g, per)} if g < 2 else None)
+            for b in blocks:
+                if b in seen:
+                    raise Violation("%s: a stored block of setup #%d of the same (key, DB) appears again in setup #%d of the same process "
+                                    "(%d postings per setup)" % (scheme, seen[b], g, per), "%s:block_repeats_after_many_setups" % scheme)
+            for b in blocks:
+                seen[b] = g
 
 
 def run_shard(spec, seed, tier):
     res = ShardResult()
+    if spec["kind"] == "long_run":
+        try:
+            long_run(spec["scheme"], seed, tier, res)
+        except Violation as v:
+            res.add_violation({"scheme": spec["scheme"], "long_run": True, "seed": seed, "tier": tier}, str(v), v.bucket)
+        return res
     n = 100 if tier == "quick" else 1000
     hyp.search(res, st_case(spec["scheme"]), body, seed, n)
     return res
@@ -302,6 +335,9 @@ def run_shard(spec, seed, tier):
 
 def replay(case):
     try:
+        if case.get("long_run"):
+            long_run(case["scheme"], case["seed"], case.get("tier", "quick"), ShardResult())
+            return None
         run_case(case)
     except Violation as v:
         return str(v)
